@@ -388,7 +388,10 @@ pub fn gen_history(rng: &mut Rng, prog: &Program, cfg: &GenCfg) -> (Vec<(usize, 
           let then_require = if rng.chance(40) { roots(rng, false) } else { vec![] };
           let pre_require = if cfg.in_session && rng.chance(45) { roots(rng, false) } else { vec![] };
           let shape = if cfg.in_session { *rng.pick(&[0u8, 0, 0, 0, 1, 2, 2, 3]) } else { 0 };
-          steps.push(Step::BottomUp { report: None, then_require, pre_require, shape, keep_going: false });
+          // Sometimes the caller reports more than what changed (every resource, in an arbitrary order): unchanged
+          // resources must not schedule anything.
+          let report = if cfg.in_session && rng.chance(20) { let mut v: Vec<usize> = (0..nres).collect(); for i in (1..v.len()).rev() { let j = rng.below(i as u64 + 1) as usize; v.swap(i, j); } Some(v) } else { None };
+          steps.push(Step::BottomUp { report, then_require, pre_require, shape, keep_going: false });
           if rng.chance(70) { steps.push(Step::ProbeAll); }
         } else if cfg.bottom_up == 0 || cfg.td_between || cfg.all_roots_td {
           steps.push(Step::TopDown { roots: roots(rng, cfg.all_roots_td), keep_going: false });
